@@ -116,6 +116,7 @@ pub struct Run {
     violation_files: usize,
     known_hits: BTreeMap<String, (usize, Value)>,
     kinds: BTreeMap<String, usize>,
+    vacuous: Vec<String>,
     pub capped: bool,
 }
 
@@ -140,6 +141,7 @@ impl Run {
             violation_files: 0,
             known_hits: BTreeMap::new(),
             kinds: BTreeMap::new(),
+            vacuous: vec![],
             capped: false,
         }
     }
@@ -206,15 +208,19 @@ impl Run {
         self.violations
     }
 
-    /// Refuse to report success for a vacuous run.
-    pub fn require(&self, cond: bool, what: &str) {
+    /// Refuse to report success for a vacuous run. A run that found violations reports those
+    /// (exit 1); only a silent run that was vacuous is a machinery error (exit 2).
+    pub fn require(&mut self, cond: bool, what: &str) {
         if !cond {
-            machinery_error(&format!("{}: vacuous or inconsistent run: {}", self.prop, what));
+            self.vacuous.push(what.to_string());
         }
     }
 
     /// Write the evidence file and exit with the contract's status.
     pub fn finish(mut self) -> ! {
+        if self.violations == 0 && !self.vacuous.is_empty() {
+            machinery_error(&format!("{}: vacuous or inconsistent run: {}", self.prop, self.vacuous.join("; ")));
+        }
         for (k, (n, ex)) in self.known_hits.iter() {
             let what = self.known.what(&self.prop, k).cloned().unwrap_or_default();
             println!(
